@@ -93,6 +93,22 @@ def iteration_order(names):
     return [by_var[id(k)] for k in m.keys()]
 
 
+def _grow_pool(kind, i):
+    """one more non-dynamic Var (kind nondyn) or dynamic Var with the :bad-rejecting validator; returns its name"""
+    from basilisp.lang import symbol as sym
+
+    st = _ST
+    name = f"n{i}" if kind == "nondyn" else f"*w{i}*"
+    if name not in st["vars"]:
+        if kind == "nondyn":
+            st["ev"].eval(f"(def {name} :rn{i})")
+        else:
+            st["ev"].eval(f"(def ^:dynamic {name} :rw{i}) (set-validator! (var {name}) (fn [v] (not= v :bad)))")
+        st["vars"][name] = st["ns"].find(sym.symbol(name))
+        st["roots"][name] = st["vars"][name].root
+    return name
+
+
 def _select_patterns():
     """For k in {2,3}, each position p of the failing Var in iteration order and each failure kind, find a tuple of pool Vars."""
     st = _ST
@@ -111,6 +127,17 @@ def _select_patterns():
                             break
                     if found:
                         break
+                extra = 6
+                while not found and extra < 200:
+                    # Vars hash by address, so which positions the pool can realise depends on the heap layout of this very
+                    # tree and process: grow the pool (a new Var is a new address) until the position is realised
+                    bad = _grow_pool(kind, extra)
+                    extra += 1
+                    for gs in itertools.permutations(["*d0*", "*d1*"] + goods, k - 1):
+                        names = list(gs) + [bad]
+                        if iteration_order(names).index(bad) == p:
+                            found = (tuple(names), bad)
+                            break
                 if not found:
                     raise env.HarnessError(f"cannot realise failing-Var position {p} of {k} ({kind}) with the Var pool")
                 pats[(kind, k, p)] = found
@@ -226,8 +253,13 @@ class Runner:
         kind = node[0]
         where = "/".join(map(str, path))
         if kind == "B":
-            _, form, names, body, exit_ = node
-            vals = [self.fresh() for _ in names]
+            _, form, names, body, exit_ = node[:5]
+            if len(node) > 5 and node[5] == "same":
+                # re-bind every Var to the very object it currently holds (what bound-fn does on its own thread): the new
+                # binding must still be a binding of its own, so a set! inside must not reach the enclosing one
+                vals = [self.model_value(n) for n in names]
+            else:
+                vals = [self.fresh() for _ in names]
             depth_before = len(self.stack)
 
             def thunk():
@@ -320,6 +352,8 @@ def gen_nodes(budget, bound, depth):
             for exit_ in ("ret", "throw"):
                 for body, c in gen_seq(budget - 1, tuple(sorted(set(bound) | set(names))), depth + 1, max_len=2):
                     yield ("B", form, names, body, exit_), 1 + c
+                    if set(names) & set(bound):
+                        yield ("B", form, names, body, exit_, "same"), 1 + c
     for form in ALPHA["fforms"]:
         for fkind in ("nondyn", "validator"):
             for k in (2, 3):
@@ -344,13 +378,13 @@ def gen_seq(budget, bound, depth, max_len):
 
 def node_to_json(n):
     if n[0] == "B":
-        return ["B", n[1], list(n[2]), [node_to_json(x) for x in n[3]], n[4]]
+        return ["B", n[1], list(n[2]), [node_to_json(x) for x in n[3]], n[4]] + list(n[5:])
     return list(n)
 
 
 def node_from_json(j):
     if j[0] == "B":
-        return ("B", j[1], tuple(j[2]), [node_from_json(x) for x in j[3]], j[4])
+        return ("B", j[1], tuple(j[2]), [node_from_json(x) for x in j[3]], j[4]) + tuple(j[5:])
     return tuple(j)
 
 
